@@ -156,6 +156,10 @@ def make_harness(P):
                 c = o.apply(a)
                 ctx.check("apply keeps Inv for all label values", lib.inv_relation(ctx, c))
                 ctx.check("apply shifts the sector by the operator charge", lib.ctx_eq_labels(ctx, c.qntot, [qt + dq]))
+                ctx.check("apply: the operands keep their own sector and stay valid (the result's sector update must not reach them)",
+                          ctx.all([lib.ctx_eq_labels(ctx, a.qntot, [qt]), lib.ctx_eq_labels(ctx, o.qntot, [dq]), lib.inv_relation(ctx, a), lib.inv_relation(ctx, o)]))
+                c2 = o.apply(a)
+                ctx.check("apply twice on the same operand: same sector both times", lib.ctx_eq_labels(ctx, c2.qntot, [qt + dq]))
                 if model.nsite == 2:
                     # for longer chains this is the induction "Inv => sector" (recorded in the evidence); the dense
                     # polynomial form is beyond nlsat with symbolic labels
